@@ -79,20 +79,70 @@ fn spell_name(name: &str, spell: usize) -> String {
 pub static HANGS: std::sync::atomic::AtomicUsize = std::sync::atomic::AtomicUsize::new(0);
 /// WebSocket upgrades that were sent on a connection which had carried ordinary requests before
 pub static WS_ON_KEPT: std::sync::atomic::AtomicUsize = std::sync::atomic::AtomicUsize::new(0);
+/// upgrades on a kept connection that got no byte while the same upgrade on a fresh connection reached a handler
+pub static KEPT_CLOSED: std::sync::atomic::AtomicUsize = std::sync::atomic::AtomicUsize::new(0);
 const MAX_HANGS: usize = 4;
 fn too_many_hangs() -> bool {
     HANGS.load(std::sync::atomic::Ordering::SeqCst) >= MAX_HANGS
 }
 
 pub fn ident(tag: &str, sub: usize, idx: usize, kind: &str) -> String {
-    format!("R|{}|{}|{}|{}", tag, sub, idx, kind)
+    format!("R|{}|{}|{}|{}|E", tag, sub, idx, kind)
 }
 
 /// Registers one HTTP route on a sub-app, cycling through the three registration entry points
 
+static PORTS_IN_USE: Mutex<Vec<u16>> = Mutex::new(Vec::new());
+/// started apps whose readiness was confirmed without a monitor event
+pub static NO_EVENT_STARTS: std::sync::atomic::AtomicUsize = std::sync::atomic::AtomicUsize::new(0);
+
+/// A loopback port that is free now and that no other app of THIS process is using or about to use.
 pub fn free_port() -> u16 {
-    let l = TcpListener::bind("127.0.0.1:0").expect("bind 127.0.0.1:0");
-    l.local_addr().unwrap().port()
+    loop {
+        let l = TcpListener::bind("127.0.0.1:0").expect("bind 127.0.0.1:0");
+        let p = l.local_addr().unwrap().port();
+        let mut used = PORTS_IN_USE.lock().unwrap();
+        if !used.contains(&p) {
+            used.push(p);
+            return p;
+        }
+    }
+}
+pub fn release_port(p: u16) {
+    PORTS_IN_USE.lock().unwrap().retain(|x| *x != p);
+}
+
+/// True when a socket of this process listens on 127.0.0.1:port (/proc/net/tcp inode found among /proc/self/fd).
+/// Used to confirm that OUR app bound the port when the app does not report the probe connection through its
+/// monitor (monitor events are not part of the property).
+pub fn listener_is_ours(port: u16) -> bool {
+    let want = format!("0100007F:{:04X}", port);
+    let tcp = match std::fs::read_to_string("/proc/net/tcp") {
+        Ok(t) => t,
+        Err(_) => return false,
+    };
+    let mut inode: Option<String> = None;
+    for line in tcp.lines().skip(1) {
+        let f: Vec<&str> = line.split_whitespace().collect();
+        if f.len() > 9 && f[1] == want && f[3] == "0A" {
+            inode = Some(f[9].to_string());
+            break;
+        }
+    }
+    let inode = match inode {
+        Some(i) => format!("socket:[{}]", i),
+        None => return false,
+    };
+    if let Ok(rd) = std::fs::read_dir("/proc/self/fd") {
+        for e in rd.flatten() {
+            if let Ok(t) = std::fs::read_link(e.path()) {
+                if t.to_string_lossy() == inode {
+                    return true;
+                }
+            }
+        }
+    }
+    false
 }
 
 // ------------------------------------------------------------------------------------------------
@@ -141,7 +191,38 @@ fn read_response(c: &mut Conn, head_only: bool) -> Result<(u16, Vec<u8>), String
                     }
                 }
             }
-            let cl = cl.ok_or("response without Content-Length".to_string())?;
+            let cl = match cl {
+                Some(n) => n,
+                None => {
+                    // the property does not say how the answer is framed: chunked, or delimited by the close
+                    let chunked = head.to_ascii_lowercase().contains("transfer-encoding: chunked");
+                    let mut rest: Vec<u8> = c.buf[he + 4..].to_vec();
+                    c.buf.clear();
+                    if chunked {
+                        loop {
+                            if let Some(body) = dechunk(&rest) {
+                                return Ok((status, body));
+                            }
+                            let n = c.s.read(&mut tmp).map_err(|e| format!("read body: {}", e))?;
+                            if n == 0 {
+                                return Err("eof inside chunked body".into());
+                            }
+                            rest.extend_from_slice(&tmp[..n]);
+                        }
+                    }
+                    loop {
+                        match c.s.read(&mut tmp) {
+                            Ok(0) => break,
+                            Ok(n) => rest.extend_from_slice(&tmp[..n]),
+                            Err(e) => return Err(format!("read body: {}", e)),
+                        }
+                    }
+                    while rest.ends_with(b"\r\n") {
+                        rest.truncate(rest.len() - 2);
+                    }
+                    return Ok((status, rest));
+                }
+            };
             let need = he + 4 + cl;
             while c.buf.len() < need {
                 let n = c.s.read(&mut tmp).map_err(|e| format!("read body: {}", e))?;
@@ -162,10 +243,31 @@ fn read_response(c: &mut Conn, head_only: bool) -> Result<(u16, Vec<u8>), String
     }
 }
 
+/// Complete chunked body, or None when more bytes are needed.
+fn dechunk(b: &[u8]) -> Option<Vec<u8>> {
+    let mut out = vec![];
+    let mut i = 0;
+    loop {
+        let le = find(&b[i..], b"\r\n")?;
+        let size = usize::from_str_radix(String::from_utf8_lossy(&b[i..i + le]).split(';').next()?.trim(), 16).ok()?;
+        i += le + 2;
+        if size == 0 {
+            return Some(out);
+        }
+        if b.len() < i + size + 2 {
+            return None;
+        }
+        out.extend_from_slice(&b[i..i + size]);
+        i += size + 2;
+    }
+}
+
 fn parse_ident(body: &[u8], tag: &str, kind: &str) -> Got {
     let s = String::from_utf8_lossy(body).to_string();
-    let parts: Vec<&str> = s.split('|').collect();
-    if parts.len() == 5 && parts[0] == "R" {
+    // `R|tag|sub|idx|kind|E`; whatever follows the terminator (e.g. a Close frame written by the framework after the
+    // handler returned) is not ours to judge
+    let parts: Vec<&str> = s.splitn(6, '|').collect();
+    if parts.len() == 6 && parts[0] == "R" && parts[5].starts_with('E') && (kind == "ws" || parts[5] == "E") {
         if parts[1] != tag {
             return Got::Other(format!("FOREIGN identity {}", s));
         }
@@ -324,7 +426,11 @@ fn ws_once(port: u16, keep: &mut Option<Conn>, rq: &Rq, variant: usize, spell: u
     if out.starts_with(b"HTTP/") {
         let st = String::from_utf8_lossy(&out).split(' ').nth(1).and_then(|s| s.parse::<u16>().ok());
         return match st {
-            Some(101) => Got::Other("upgrade (101) without handler identity".into()),
+            Some(101) => match find(&out, b"\r\n\r\n").map(|he| &out[he + 4..]) {
+                // the upgrade answer itself may come from the framework; the handler's bytes follow it
+                Some(rest) if rest.starts_with(b"R|") => parse_ident(rest, tag, "ws"),
+                _ => Got::Other("upgrade (101) without handler identity".into()),
+            },
             Some(st) => Got::Miss(format!("http {}", st)), // answered without an upgrade and closed
             None => Got::Other("unparsable answer".into()),
         };
@@ -337,7 +443,22 @@ fn ws_once(port: u16, keep: &mut Option<Conn>, rq: &Rq, variant: usize, spell: u
 fn ask(port: u16, keep: &mut Option<Conn>, rq: &Rq, variant: usize, spell: usize, tag: &str, flaky: &mut u64) -> Got {
     let mut got = Got::Other("unreachable".into());
     for attempt in 0..3 {
+        let on_kept = rq.ws && variant % 3 == 2 && keep.is_some();
         got = if rq.ws { ws_once(port, keep, rq, variant % 3, spell, tag) } else { http_once(port, keep, rq, variant, spell, tag) };
+        if on_kept {
+            if let Got::Miss(how) = &got {
+                if how == "eof" || how == "reset" {
+                    // No byte on a connection that carried requests before: a real miss, or the server had closed the
+                    // connection in the meantime (keeping it open is not part of this property). A fresh connection
+                    // decides; when it reaches a handler the difference is reported as drift, never as a violation.
+                    let again = ws_once(port, keep, rq, 0, spell, tag);
+                    if let Got::Hit(_, _) = again {
+                        KEPT_CLOSED.fetch_add(1, std::sync::atomic::Ordering::Relaxed);
+                        got = again;
+                    }
+                }
+            }
+        }
         match &got {
             Got::Other(e) if e.starts_with("read") || e.starts_with("write") || e.starts_with("eof") || e.starts_with("ws read") || e.starts_with("connect") => {
                 let timed_out = e.contains("timed out") || e.contains("temporarily unavailable") || e.contains("WouldBlock");
@@ -460,6 +581,47 @@ fn ops_from_app(app: &Value, order: usize, full_api: bool) -> Vec<Op> {
     ops
 }
 
+fn non_ascii(s: &str) -> bool {
+    !s.is_ascii()
+}
+
+/// A mismatch on an input OUTSIDE the property's quantifier (Host: absent / exact / wildcard-matching / with port /
+/// non-matching; paths with and without query; patterns: literals, prefixes, suffixes, infixes, multiple and
+/// adjacent `*`, overlapping and shadowing) is reported as drift of the specification, not as a violation.
+fn beyond(app: &Value, rq: &Rq, variant: usize, exp: (usize, usize), got: &Got) -> Option<&'static str> {
+    if !rq.ws && variant == 3 {
+        return Some("OPTIONS (answered by the framework, no route handler runs)");
+    }
+    if rq.hostp && rq.host.is_empty() {
+        return Some("Host header present with an empty value");
+    }
+    if rq.target.is_empty() || rq.target.starts_with('?') {
+        return Some("empty path");
+    }
+    if non_ascii(&rq.host) || non_ascii(&rq.target) {
+        return Some("non-ASCII characters in Host or request target");
+    }
+    let mut hs = vec![exp];
+    if let Got::Hit(s, j) = got {
+        if *s != usize::MAX {
+            hs.push((*s, *j));
+        }
+    }
+    let kind = if rq.ws { "ws" } else { "http" };
+    for (sub, idx) in hs {
+        if idx == 0 {
+            continue;
+        }
+        let sa = if sub == 0 { &app["def"] } else { &app["hosts"][sub - 1] };
+        let empty_route = sa[kind].get(idx - 1).and_then(|p| p.as_array()).map(|a| a.is_empty()).unwrap_or(false);
+        let empty_host = sub != 0 && sa["host"].as_array().map(|a| a.is_empty()).unwrap_or(false);
+        if empty_route || empty_host {
+            return Some("the empty pattern is involved");
+        }
+    }
+    None
+}
+
 #[derive(Default)]
 struct Tally {
     apps: u64,
@@ -471,6 +633,8 @@ struct Tally {
     flaky: u64,
     refused_degenerate: u64,
     start_failures: u64,
+    drifts: u64,
+    first_drift: Vec<Value>,
     first: Vec<Value>,
     samples: Vec<Value>,
 }
@@ -563,6 +727,14 @@ fn replay<S: Server>(variants_mode: &str, workers: usize) {
                         }
                     }
                     if !ok {
+                        if let Some(why) = beyond(&job.app, rq, v, exp, &got) {
+                            local.drifts += 1;
+                            if local.first_drift.len() < 4 {
+                                local.first_drift.push(json!({"beyond": why, "app_index": job.idx, "app": job.app, "request_index": ri + 1,
+                                    "request": rq_json(rq), "variant": v, "expected": [exp.0, exp.1], "got": got_json(&got)}));
+                            }
+                            continue;
+                        }
                         local.mismatches += 1;
                         if local.first.len() < 10 {
                             local.first.push(json!({"app_index": job.idx, "app": job.app, "request_index": ri + 1, "request": rq_json(rq),
@@ -586,6 +758,12 @@ fn replay<S: Server>(variants_mode: &str, workers: usize) {
             t.unstopped += local.unstopped;
             t.flaky += local.flaky;
             t.refused_degenerate += local.refused_degenerate;
+            t.drifts += local.drifts;
+            for f in local.first_drift {
+                if t.first_drift.len() < 12 {
+                    t.first_drift.push(f);
+                }
+            }
             for f in local.first {
                 if t.first.len() < 40 {
                     t.first.push(f);
@@ -605,6 +783,7 @@ fn replay<S: Server>(variants_mode: &str, workers: usize) {
     out_line(&json!({"summary": true, "apps": t.apps, "requests": t.requests, "evaluations": t.evaluations, "mismatches": t.mismatches,
         "tool_errors": t.tool_errors, "start_failures": t.start_failures, "unstopped": t.unstopped, "transport_retries": t.flaky,
         "refused_degenerate": t.refused_degenerate, "ws_upgrades_on_kept_connection": WS_ON_KEPT.load(std::sync::atomic::Ordering::Relaxed), "hangs": HANGS.load(std::sync::atomic::Ordering::SeqCst), "aborted_after_hangs": too_many_hangs(),
+        "drifts": t.drifts, "first_drift": t.first_drift, "upgrade_on_kept_connection_closed": KEPT_CLOSED.load(std::sync::atomic::Ordering::Relaxed), "starts_without_monitor_event": NO_EVENT_STARTS.load(std::sync::atomic::Ordering::Relaxed),
         "first": t.first, "samples": t.samples}));
 }
 
